@@ -157,6 +157,10 @@ def _writer_layout(f, idx=None):
     return header_fields, data_layout, columns
 
 
+_ORDER_ISSUES: list = []
+_ENUM_FORM: list = []
+
+
 def _reader_layout(f, idx=None):
     """(header names, reshape dims, axis permutation applied after the reshape) of a from_w90_file reader, read off the
     resolved `data=` argument of the object it returns (transpose / swapaxes / trailing column selection are composed)."""
@@ -188,8 +192,28 @@ def _reader_layout(f, idx=None):
         # {ik: arr[ik] for ik in selected}: per-k view of arr
         kv = norm(e.key)
         v = e.value
+        gen0 = e.generators[0]
         if isinstance(v, ast.Subscript) and norm(v.slice) == kv:
             e = v.value
+        elif isinstance(v, ast.Subscript) and isinstance(gen0.iter, ast.Call) and call_name(gen0.iter) == "enumerate" and gen0.iter.args \
+                and isinstance(gen0.target, ast.Tuple) and len(gen0.target.elts) == 2 and norm(gen0.target.elts[1]) == kv \
+                and norm(v.slice) == norm(gen0.target.elts[0]):
+            # {ik: arr[i] for i, ik in enumerate(SEL)}: row i of arr must belong to the i-th entry of SEL.  If the rows were picked out of
+            # the file by a membership filter they come in FILE order, which equals the order of SEL only when SEL is ascending.
+            sel = gen0.iter.args[0]
+            sel_r = S.resolve(sel, at)
+            exprs_, _, _ = du.backward_slice(v.value, at)
+            filt = [lc for ex in exprs_ for lc in ast.walk(ex) if isinstance(lc, (ast.ListComp, ast.GeneratorExp)) and any(g.ifs for g in lc.generators)]
+            foreign = [lc for lc in filt if not any(norm(g.iter) == norm(sel) or (isinstance(g.iter, ast.Call) and call_name(g.iter) == "enumerate" and g.iter.args
+                                                                                 and norm(g.iter.args[0]) == norm(sel)) for g in lc.generators)]
+            alts = S.alternatives(sel, at)
+            ascending = all(isinstance(a_, ast.Call) and call_name(a_) in ("np.sort", "sorted", "np.unique", "np.arange", "range", "numpy.sort", "numpy.arange") for a_ in alts)
+            if foreign and not ascending:
+                _ORDER_ISSUES.append((f, e, f"`{norm1(e, 90)}` pairs row i of an array whose rows were selected from the file by a filter "
+                                            f"(`{norm1(foreign[0], 70)}`: file order) with the i-th entry of `{norm1(sel)}` (caller's order, not sorted): "
+                                            f"for a k-point selection that is not ascending the blocks are assigned to the wrong k-points"))
+            e = v.value
+            _ENUM_FORM.append(True)
         else:
             raise AnalysisError(f"{f.short}: data dictionary is not {{ik: array[ik] …}}")
     perm = None
@@ -280,6 +304,39 @@ def run(ctx) -> None:
                             and isinstance(n.slice, ast.Tuple):
                         r1.observe(f"{m.short}: `{norm1(n, 60)}` tuple-subscripts the k-dictionary (method outside the "
                                    f"write/npz round trip)")
+
+    # ---------------------------------------------------------------- R19.7
+    # the readers tokenise every line with str.split(): two numeric fields written back to back fuse as soon as one of them
+    # fills its width (energy ≤ −1000 eV, more than 9999 k-points …) and the file can no longer be read
+    r7 = ctx.rule("R19.7", "text writers separate consecutive fields with white space", min_instances=3)
+    for f_ in idx.all_functions():
+        if not f_.module.relpath.startswith(W90) or f_.name != "to_w90_file":
+            continue
+        for wc in method_calls(f_.node, "write"):
+            for js in [n_ for n_ in ast.walk(wc) if isinstance(n_, ast.JoinedStr)]:
+                fvs = [v_ for v_ in js.values if isinstance(v_, ast.FormattedValue)]
+                if len(fvs) < 2:
+                    continue
+                r7.instance(f"{f_.short}: {norm1(js, 70)}")
+                fused = None
+                prev_is_field = False
+                for v_ in js.values:
+                    if isinstance(v_, ast.FormattedValue):
+                        if prev_is_field:
+                            fused = v_
+                        prev_is_field = True
+                    elif isinstance(v_, ast.Constant) and isinstance(v_.value, str):
+                        if any(ch.isspace() for ch in v_.value):
+                            prev_is_field = False
+                r7.check(fused is None, "every pair of consecutive fields is separated by white space", f_, wc,
+                         f"`{norm1(js, 90)}` writes the field `{norm1(fused.value) if fused is not None else ''}` directly after the previous one: "
+                         f"when a value fills its width the two columns fuse and the reader (which splits on white space) cannot recover them")
+            for fc in [n_ for n_ in ast.walk(wc) if isinstance(n_, ast.Call) and isinstance(n_.func, ast.Attribute) and n_.func.attr == "format"
+                       and isinstance(n_.func.value, ast.Constant) and isinstance(n_.func.value.value, str)]:
+                import re as _re7
+                r7.instance(f"{f_.short}: {norm1(fc, 70)}")
+                r7.check(not _re7.search(r"\}\{", fc.func.value.value), "every pair of consecutive fields is separated by white space", f_, wc,
+                         f"format string {fc.func.value.value!r} has two fields back to back")
 
     # ---------------------------------------------------------------- R19.2
     r2 = ctx.rule("R19.2", "attributes read by the text writers exist", min_instances=3)
@@ -385,7 +442,11 @@ def run(ctx) -> None:
             raise AnalysisError(f"{cn}.from_w90_file vanished")
         r5.instance(f"{cn}: {w.short} ↔ {rd.short}")
         whead, (loops, index, wcall), columns = _writer_layout(w, idx)
+        _ORDER_ISSUES.clear()
+        _ENUM_FORM.clear()
         rhead, reshape, perm, _ = _reader_layout(rd, idx)
+        for f_i, node_i, msg_i in _ORDER_ISSUES:
+            r5.violation(f_i, node_i, f"{cn}: {msg_i}", stmt="row/k-point pairing")
         lvars = [v for v, _, _ in loops]
         lsizes = [s for _, s, _ in loops]
         for v, sz, dis in loops:
@@ -399,6 +460,8 @@ def run(ctx) -> None:
         if reshape is None:
             raise AnalysisError(f"{rd.short}: reshape of the data block not found")
         named = [d for d in reshape if not d.isdigit()]
+        if _ENUM_FORM and named and named[0].startswith("len(") and lsizes:
+            named[0] = lsizes[0]      # only the selected k-blocks were converted: len(selection) blocks, each laid out like one of the NK
         r5.check(named == lsizes, f"{cn}: loop nest {lsizes} (outer→inner) equals the reader's reshape {reshape}", w, wcall,
                  f"{cn}: values are written in loop order {list(zip(lvars, lsizes))} but the reader reshapes the stream as "
                  f"{reshape}: elements land at the wrong indices")
@@ -501,6 +564,8 @@ from ..selftest import V  # noqa: E402
 
 EIGF, AMNF, MMNF = W90 + "eig.py", W90 + "amn.py", W90 + "mmn.py"
 SELFTEST = [
+    V("EIG writer uses the Fortran layout without separators (seeded C19-m4)", W90 + "eig.py", 'file.write(f" {ib + 1:4d} {ik + 1:4d} {self.data[ik][ib]:17.12f}\\n")',
+      'file.write(f"{ib + 1:5d}{ik + 1:5d}{self.data[ik][ib]:18.12f}\\n")', "fire", "R19.7"),
     V("EIG writer tuple-subscripts the dict (original defect)", EIGF, "{self.data[ik][ib]:17.12f}", "{self.data[ik, ib]:17.12f}",
       "fire", "R19.1"),
     V("AMN writer tuple-subscripts the dict (original defect)", AMNF,
